@@ -31,6 +31,7 @@ class Exact:
         self.memo = {}
         self.bytes_memo = {}
         self.vt = set(sites.BORROWED) | set(ctx.owned)
+        self.argn = 1           # which argument of the function under analysis is the source value
 
     def B(self, T):
         if T not in self.bytes_memo:
@@ -87,7 +88,13 @@ class Exact:
         b = self.P.body(name)
         if b is None:
             raise Undetermined(f'{name} has no body')
-        f = b
+        saved_argn, self.argn = self.argn, 1
+        try:
+            return self._fn(name, b)
+        finally:
+            self.argn = saved_argn
+
+    def _fn(self, name, b):
         self.memo[name] = None
         if name in self.ctx.checked_ctors:
             # a validating constructor: succeeds exactly on the language of the validator it calls (its shape is C01's constructor rule)
@@ -123,11 +130,11 @@ class Exact:
 
     def ev(self, b, t, src):
         k = t[0]
-        if k == 'arg' and t[1] == 1:
+        if k == 'arg' and t[1] == self.argn:
             return (self.ALL, src)
         if k in ('ref', 'deref'):
             return self.ev(b, t[1], src)
-        if k in ('field', 'payload', 'cast') and self.root(t) is not None and self.root(t)[:2] == ('arg', 1):
+        if k in ('field', 'payload', 'cast') and self.root(t) is not None and self.root(t)[:2] == ('arg', self.argn):
             return (self.ALL, src)
         if k in ('field', 'payload') and t[1][0] in ('call', 'hof') and (k == 'payload' or t[2] == 0):
             return self.ev(b, t[1], src)          # the payload of the Option / Result another conversion returned (let-else, match, `?`)
@@ -175,13 +182,13 @@ class Exact:
                     lifted, _outer = sites.lift_upvars(self.ctx, b, args[0])
                     args = (lifted,) + tuple(args[1:])
                 r = self.root(args[0]) if args else None
-                if ty is None or r is None or r[:2] != ('arg', 1):
+                if ty is None or r is None or r[:2] != ('arg', self.argn):
                     raise Undetermined(f'{c} on something that is not the text of self')
                 bi = t[3] if len(t) > 3 and isinstance(t[3], int) else None
                 return (self.guards(b, bi) if bi is not None and bi >= 0 else self.ALL, ty)
             if c in self.ctx.checked_ctors:
                 r = self.root(args[0]) if args else None
-                if r is None or r[:2] != ('arg', 1):
+                if r is None or r[:2] != ('arg', self.argn):
                     raise Undetermined(f'{c} on something that is not the text of the argument')
                 return self.fn(c)
             if re.search(r'(Result::<T, E>::ok|Option::<T>::ok_or|Option::<T>::ok_or_else|Result::<T, E>::map_err)$', c) and args:
@@ -202,7 +209,7 @@ class Exact:
                 return (intersect(ok1, ok2), t2)
             if len(args) == 1 and base in self.TRANSPARENT and self.P.body(c) is None:
                 r = self.root(t)
-                if r is not None and r[:2] == ('arg', 1):
+                if r is not None and r[:2] == ('arg', self.argn):
                     return (self.ALL, src)
             if self.P.body(c) is not None and len(args) == 1:
                 ok1, t1 = self.ev(b, args[0], src)
